@@ -5,6 +5,7 @@ import PyamgV.Proofs.FitCand
 import PyamgV.Proofs.Proj
 import PyamgV.Proofs.C10Fit
 import PyamgV.Proofs.C10Proj
+import PyamgV.Proofs.ExtC10RefineD
 import Mathlib.Analysis.Real.Sqrt
 import Mathlib.Algebra.Order.Ring.Rat
 import Mathlib.Algebra.Field.Rat
@@ -47,6 +48,79 @@ restate fit_local := PyamgV.C10.fit_local
 /-- `(T·B_c)[i, c] = B[i, c] − drop` on every aggregated unknown `i`, as a sum over *all* coarse
 unknowns (`drop = 0` when nothing was discarded or the discarded part is exactly dependent) -/
 restate fit_reproduces := PyamgV.C10.fit_reproduces
+
+/-! ## the array-level kernel model refines the proof-side definitions (extension E8)
+
+`C10M.fitCandidates` is the loop-by-loop model of `fit_candidates_common` the check compares bit by
+bit with the kernel (`c10_fitk`; `ratOps = fieldOps ratSqrt ratSqrtOk` is the instance run in mode `r`).
+For every valid `AggOp` in CSC form (`C10R.ValidAgg`: pointers ascending and inside `Ai`, node indices
+in range, **each node listed at most once**), every candidate array `b`, any `K1`, `K2`, `tol`, over
+any linearly ordered field with a square-root function (no hypothesis on it): the kernel's `Ax`, read
+as the columns of `T` exactly as `fit_candidates` assembles them (`C10R.kernelT`), and the kernel's `R`
+(`C10R.kernelR`) are the columns and the `R` entries of the proof-side per-aggregate Gram-Schmidt
+`C10.fitAgg` applied to the candidates `candB b` with the aggregate map `agg` of the arrays
+(`C10R.AggSpec`; `C10R.cscAgg` is that map, `cscAgg_spec`).  The four fit theorems follow for the
+array model itself. -/
+
+/-- the model run by `c10_fitk r` is the field instance the refinement theorems are about -/
+restate ratOps_eq := PyamgV.C10R.ratOps_eq
+/-- the kernel model is the fold of `aggBody` over the aggregates after `copyBlocks` (by `rfl`) -/
+restate fitCandidates_eq := PyamgV.C10R.fitCandidates_eq
+/-- the copy loop: block `ii` of `Ax` is block `Ai[ii]` of `B` -/
+restate copyBlocks_spec := PyamgV.C10R.copyBlocks_spec
+/-- one pass of the `bj` loop of the array model = one step of `GS.mgs` (`orth`, then `newCol`) -/
+restate colStep_spec := PyamgV.C10R.colStep_spec
+/-- the whole loop of one aggregate of the array model = `GS.mgs` on the stored columns; nothing
+outside the aggregate's segment of `Ax` and block of `R` is touched -/
+restate aggBody_spec := PyamgV.C10R.aggBody_spec
+/-- all aggregates: no interference between aggregates -/
+restate fitLoop_spec := PyamgV.C10R.fitLoop_spec
+/-- `GS.mgs` commutes with isometric linear embeddings (rows of an aggregate ↪ all unknowns) -/
+restate mgs_map := PyamgV.GS.mgs_map
+/-- `C10.fitAgg` on the masked candidates = zero extension of `GS.mgs` on the copied block -/
+restate fitAgg_eq := PyamgV.C10R.fitAgg_eq
+/-- the aggregate map computed from the CSC arrays satisfies `AggSpec` -/
+restate cscAgg_spec := PyamgV.C10R.cscAgg_spec
+/-- **refinement, `Q`** entry by entry: `Ax[K1·K2·ii + k1·K2 + c]` is column `c` of `fitAgg … a` at
+the unknown `Ai[ii]·K1 + k1`, for every block `ii` of aggregate `a` -/
+restate fit_refines_q := PyamgV.C10R.fit_refines_q
+/-- **refinement, `R`**: block `a` of the kernel's `R` = the `R` entries of `fitAgg … a` (projections
+above the diagonal, norm or `0` on it, `0` below) -/
+restate fit_refines_r := PyamgV.C10R.fit_refines_r
+/-- **refinement, `T`** as functions of (row, column): the column assembled from `Ax` equals the
+column of `fitAgg` on *all* unknowns (zero outside the aggregate) -/
+restate kernelT_eq := PyamgV.C10R.kernelT_eq
+restate kernelR_eq := PyamgV.C10R.kernelR_eq
+/-- `fit_support` for the array model -/
+restate kernel_support := PyamgV.C10R.kernel_support
+/-- `fit_cross_orthogonal` for the array model -/
+restate kernel_cross_orthogonal := PyamgV.C10R.kernel_cross_orthogonal
+/-- `fit_local` for the array model: `TᵀT = I` inside an aggregate up to dropped (zero) columns -/
+restate kernel_local := PyamgV.C10R.kernel_local
+/-- `fit_reproduces` for the array model: `Σ_{(a',c')} T[i,(a',c')]·R[(a',c'),c] = B[i,c] − drop` -/
+restate kernel_reproduces := PyamgV.C10R.kernel_reproduces
+restate kernel_drop_bound := PyamgV.C10R.kernel_drop_bound
+
+/-- the refinement in closed form (aggregate map computed from the arrays, no side conditions other
+than validity of the arrays) -/
+theorem fitCandidates_refines {K : Type} [Field K] [LinearOrder K] [IsStrictOrderedRing K]
+    (sqrt : K → K) (ok : K → Bool) (tol : K) {nFine nCol : Nat} (K1 K2 : Nat) {ap ai : Array Nat}
+    (b : Array K) (hV : PyamgV.C10R.ValidAgg nFine nCol ap ai) (a : Fin nCol) :
+    (∀ c < K2,
+      PyamgV.C10R.kernelT (PyamgV.C10M.fitCandidates (PyamgV.C10R.fieldOps sqrt ok) nCol K1 K2 ap ai b tol)
+          nFine nCol K1 K2 ap ai a c =
+        (PyamgV.C10.fitAgg sqrt tol (PyamgV.C10R.cscAgg nFine nCol K1 ap ai)
+          (PyamgV.C10R.candB nFine K1 K2 b) K2 a).q.getD c 0) ∧
+    (∀ c' < K2, ∀ c < K2,
+      PyamgV.C10R.kernelR (PyamgV.C10M.fitCandidates (PyamgV.C10R.fieldOps sqrt ok) nCol K1 K2 ap ai b tol)
+          K2 a.val c' c =
+        if c' < c then ((PyamgV.C10.fitAgg sqrt tol (PyamgV.C10R.cscAgg nFine nCol K1 ap ai)
+            (PyamgV.C10R.candB nFine K1 K2 b) K2 a).r.getD c ([], 0)).1.getD c' 0
+        else if c' = c then ((PyamgV.C10.fitAgg sqrt tol (PyamgV.C10R.cscAgg nFine nCol K1 ap ai)
+            (PyamgV.C10R.candB nFine K1 K2 b) K2 a).r.getD c ([], 0)).2
+        else 0) :=
+  ⟨fun c hc => PyamgV.C10R.kernelT_eq sqrt ok tol K1 K2 b hV _ (PyamgV.C10R.cscAgg_spec K1 hV) a c hc,
+   fun c' hc' c hc => PyamgV.C10R.kernelR_eq sqrt ok tol K1 K2 b hV _ (PyamgV.C10R.cscAgg_spec K1 hV) a c' c hc' hc⟩
 
 /-! ## constraint projection (`satisfy_constraints_helper`, `satisfy_constraints`, `filter_operator`) -/
 
@@ -120,6 +194,30 @@ example {ι α : Type} [Fintype ι] [Fintype α] [DecidableEq α] (agg : ι → 
       B i c - (PyamgV.C10.fitAgg Real.sqrt (1 / 10 ^ 10) agg B K2 a).drop.getD c 0 i :=
   PyamgV.C10.fit_reproduces Real.sqrt (fun _ h => Real.mul_self_sqrt h) Real.sqrt_nonneg (1 / 10 ^ 10)
     (by positivity) agg B K2 a i hi c hc
+
+/-- a valid `AggOp` (4 nodes, aggregates {0, 2} and {1}, node 3 left out): the hypotheses of the
+refinement theorems are satisfiable, and with the real square root so are those of
+`kernel_reproduces` -- for every nodal block size, number of candidates and candidate array -/
+theorem validAgg_example : PyamgV.C10R.ValidAgg 4 2 #[0, 2, 3] #[0, 2, 1] :=
+  ⟨by decide, by decide, by decide, by decide⟩
+
+example (K1 K2 : Nat) (b : Array ℝ) (a : Fin 2) (i : Fin (4 * K1))
+    (hi : PyamgV.C10R.cscAgg 4 2 K1 #[0, 2, 3] #[0, 2, 1] i = some a) (c : Nat) (hc : c < K2) :
+    ∑ a' : Fin 2, ∑ c' ∈ Finset.range K2,
+      PyamgV.C10R.kernelT (PyamgV.C10M.fitCandidates (PyamgV.C10R.fieldOps Real.sqrt (fun _ => true)) 2 K1 K2
+          #[0, 2, 3] #[0, 2, 1] b (1 / 10 ^ 10)) 4 2 K1 K2 #[0, 2, 3] #[0, 2, 1] a' c' i *
+        PyamgV.C10R.kernelR (PyamgV.C10M.fitCandidates (PyamgV.C10R.fieldOps Real.sqrt (fun _ => true)) 2 K1 K2
+          #[0, 2, 3] #[0, 2, 1] b (1 / 10 ^ 10)) K2 a'.val c' c =
+      PyamgV.C10R.candB 4 K1 K2 b i c -
+        (PyamgV.C10.fitAgg Real.sqrt (1 / 10 ^ 10) (PyamgV.C10R.cscAgg 4 2 K1 #[0, 2, 3] #[0, 2, 1])
+          (PyamgV.C10R.candB 4 K1 K2 b) K2 a).drop.getD c 0 i :=
+  PyamgV.C10R.kernel_reproduces Real.sqrt (fun _ => true) (1 / 10 ^ 10) K1 K2 b validAgg_example _
+    (PyamgV.C10R.cscAgg_spec K1 validAgg_example) (fun _ h => Real.mul_self_sqrt h) Real.sqrt_nonneg
+    (by positivity) a i hi c hc
+
+/-- the aggregate map of that example: unknown 2 (node 2) lies in aggregate 0, unknown 3 in none -/
+example : PyamgV.C10R.cscAgg 4 2 1 #[0, 2, 3] #[0, 2, 1] ⟨2, by decide⟩ = some 0 ∧
+    PyamgV.C10R.cscAgg 4 2 1 #[0, 2, 3] #[0, 2, 1] ⟨3, by decide⟩ = none := by decide
 
 /-- a concrete projection: one row with two allowed columns, candidate `(1, 2)ᵀ`, local inverse `1/5` -/
 example : (Matrix.of ![![(1 / 5 : ℚ)]] : Matrix (Fin 1) (Fin 1) ℚ) *
